@@ -208,6 +208,18 @@ def Semver.Version.rs_fmt (self : Semver.Version) : (List Char) := Id.run do
 instance : Rust.RDisplay Semver.Version := ⟨Semver.Version.rs_fmt⟩
 
 /-- `Version::from` (lib.rs:503-511) -/
+def Semver.Version.rs_from_u64x3 (arg1 : (Nat × Nat × Nat)) : Semver.Version :=
+  let (major, minor, patch) := arg1
+  ({ major := (Rust.as_u64 major), minor := (Rust.as_u64 minor), patch := (Rust.as_u64 patch), build := [], pre := [] } : Semver.Version)
+instance : Rust.RInto (Nat × Nat × Nat) Semver.Version := ⟨Semver.Version.rs_from_u64x3⟩
+
+/-- `Version::from` (lib.rs:515-523) -/
+def Semver.Version.rs_from_u64x4 (arg1 : (Nat × Nat × Nat × Nat)) : Semver.Version :=
+  let (major, minor, patch, pre_release) := arg1
+  ({ major := (Rust.as_u64 major), minor := (Rust.as_u64 minor), patch := (Rust.as_u64 patch), build := [], pre := [(Semver.Ident.num (Rust.as_u64 pre_release))] } : Semver.Version)
+instance : Rust.RInto (Nat × Nat × Nat × Nat) Semver.Version := ⟨Semver.Version.rs_from_u64x4⟩
+
+/-- `Version::from` (lib.rs:503-511) -/
 def Semver.Version.rs_from_u8x3 (arg1 : (Nat × Nat × Nat)) : Semver.Version :=
   let (major, minor, patch) := arg1
   ({ major := (Rust.as_u64 major), minor := (Rust.as_u64 minor), patch := (Rust.as_u64 patch), build := [], pre := [] } : Semver.Version)
@@ -238,18 +250,6 @@ def Semver.Version.rs_from_u32x4 (arg1 : (Nat × Nat × Nat × Nat)) : Semver.Ve
   ({ major := (Rust.as_u64 major), minor := (Rust.as_u64 minor), patch := (Rust.as_u64 patch), build := [], pre := [(Semver.Ident.num (Rust.as_u64 pre_release))] } : Semver.Version)
 
 /-- `Version::from` (lib.rs:503-511) -/
-def Semver.Version.rs_from_u64x3 (arg1 : (Nat × Nat × Nat)) : Semver.Version :=
-  let (major, minor, patch) := arg1
-  ({ major := (Rust.as_u64 major), minor := (Rust.as_u64 minor), patch := (Rust.as_u64 patch), build := [], pre := [] } : Semver.Version)
-instance : Rust.RInto (Nat × Nat × Nat) Semver.Version := ⟨Semver.Version.rs_from_u64x3⟩
-
-/-- `Version::from` (lib.rs:515-523) -/
-def Semver.Version.rs_from_u64x4 (arg1 : (Nat × Nat × Nat × Nat)) : Semver.Version :=
-  let (major, minor, patch, pre_release) := arg1
-  ({ major := (Rust.as_u64 major), minor := (Rust.as_u64 minor), patch := (Rust.as_u64 patch), build := [], pre := [(Semver.Ident.num (Rust.as_u64 pre_release))] } : Semver.Version)
-instance : Rust.RInto (Nat × Nat × Nat × Nat) Semver.Version := ⟨Semver.Version.rs_from_u64x4⟩
-
-/-- `Version::from` (lib.rs:503-511) -/
 def Semver.Version.rs_from_usizex3 (arg1 : (Nat × Nat × Nat)) : Semver.Version :=
   let (major, minor, patch) := arg1
   ({ major := (Rust.as_u64 major), minor := (Rust.as_u64 minor), patch := (Rust.as_u64 patch), build := [], pre := [] } : Semver.Version)
@@ -258,6 +258,18 @@ def Semver.Version.rs_from_usizex3 (arg1 : (Nat × Nat × Nat)) : Semver.Version
 def Semver.Version.rs_from_usizex4 (arg1 : (Nat × Nat × Nat × Nat)) : Semver.Version :=
   let (major, minor, patch, pre_release) := arg1
   ({ major := (Rust.as_u64 major), minor := (Rust.as_u64 minor), patch := (Rust.as_u64 patch), build := [], pre := [(Semver.Ident.num (Rust.as_u64 pre_release))] } : Semver.Version)
+
+/-- `Version::from` (lib.rs:533-545) -/
+def Semver.Version.rs_from_i64x3 (arg1 : (Int × Int × Int)) : Semver.Version := Id.run do
+  let (major, minor, patch) := arg1
+  return ({ major := (Rust.as_u64 major), minor := (Rust.as_u64 minor), patch := (Rust.as_u64 patch), build := [], pre := [] } : Semver.Version)
+instance : Rust.RInto (Int × Int × Int) Semver.Version := ⟨Semver.Version.rs_from_i64x3⟩
+
+/-- `Version::from` (lib.rs:549-562) -/
+def Semver.Version.rs_from_i64x4 (arg1 : (Int × Int × Int × Int)) : Semver.Version := Id.run do
+  let (major, minor, patch, pre_release) := arg1
+  return ({ major := (Rust.as_u64 major), minor := (Rust.as_u64 minor), patch := (Rust.as_u64 patch), build := [], pre := [(Semver.Ident.num (Rust.as_u64 pre_release))] } : Semver.Version)
+instance : Rust.RInto (Int × Int × Int × Int) Semver.Version := ⟨Semver.Version.rs_from_i64x4⟩
 
 /-- `Version::from` (lib.rs:533-545) -/
 def Semver.Version.rs_from_i8x3 (arg1 : (Int × Int × Int)) : Semver.Version := Id.run do
@@ -288,18 +300,6 @@ def Semver.Version.rs_from_i32x3 (arg1 : (Int × Int × Int)) : Semver.Version :
 def Semver.Version.rs_from_i32x4 (arg1 : (Int × Int × Int × Int)) : Semver.Version := Id.run do
   let (major, minor, patch, pre_release) := arg1
   return ({ major := (Rust.as_u64 major), minor := (Rust.as_u64 minor), patch := (Rust.as_u64 patch), build := [], pre := [(Semver.Ident.num (Rust.as_u64 pre_release))] } : Semver.Version)
-
-/-- `Version::from` (lib.rs:533-545) -/
-def Semver.Version.rs_from_i64x3 (arg1 : (Int × Int × Int)) : Semver.Version := Id.run do
-  let (major, minor, patch) := arg1
-  return ({ major := (Rust.as_u64 major), minor := (Rust.as_u64 minor), patch := (Rust.as_u64 patch), build := [], pre := [] } : Semver.Version)
-instance : Rust.RInto (Int × Int × Int) Semver.Version := ⟨Semver.Version.rs_from_i64x3⟩
-
-/-- `Version::from` (lib.rs:549-562) -/
-def Semver.Version.rs_from_i64x4 (arg1 : (Int × Int × Int × Int)) : Semver.Version := Id.run do
-  let (major, minor, patch, pre_release) := arg1
-  return ({ major := (Rust.as_u64 major), minor := (Rust.as_u64 minor), patch := (Rust.as_u64 patch), build := [], pre := [(Semver.Ident.num (Rust.as_u64 pre_release))] } : Semver.Version)
-instance : Rust.RInto (Int × Int × Int × Int) Semver.Version := ⟨Semver.Version.rs_from_i64x4⟩
 
 /-- `Version::from` (lib.rs:533-545) -/
 def Semver.Version.rs_from_isizex3 (arg1 : (Int × Int × Int)) : Semver.Version := Id.run do
